@@ -592,6 +592,20 @@ def _grammar(ctx, model, table):
                 n += 1
                 check(f"T/c-grammar/{P}.{posname(P, pos)}<-{C}", t,
                       {"parent": P, "position": posname(P, pos), "child": C})
+    # u**1 is written as u: whatever parentheses the parent would give u (by
+    # precedence, or by the class of its operand -- it sees a Power there) must
+    # still come, under every parent and in every position
+    for P, ar in KINDS.items():
+        for pos in range(ar):
+            for C in KINDS:
+                vs = iter(V)
+                kids = [next(vs) for _ in range(ar)]
+                kids[pos] = ("Power", mk(C, [next(vs) for _ in range(KINDS[C])]),
+                             ("Const", 1))
+                n += 1
+                check(f"T/c-grammar/{P}.{posname(P, pos)}<-{C}**1", mk(P, kids),
+                      {"parent": P, "position": posname(P, pos),
+                       "child": f"Power({C}, 1)"})
     # subtraction rewrite and constant exponents
     a, b, c, d = V[:4]
     extra = {
